@@ -5,6 +5,7 @@ symbolic.  After a truthy write the whole memory image is compared with the refe
 (addressed range == reference encoding, every other byte unchanged), the target's write log must
 show exactly one application per request, and a following read must return the value."""
 from vlib.ob import Registry
+from vlib.sym import concrete
 from vlib import scen, chplugin
 from vlib.ref import values as V
 from vlib.ref import codec as R
@@ -187,7 +188,7 @@ for t, (code, n, sg) in INTS.items():
     nb = 8 * n
     for lo in range(0, nb, 16):
         hi = min(nb, lo + 16)
-        add(f"bit/{t}.b/{lo}-{hi - 1}", [t], 2, lambda xs, t=t: [(BITREQ[t][xs[0]], xs[1] == 1, t, [("bit", xs[0] // 8, xs[0] % 8, xs[1] == 1)], None)],
+        add(f"bit/{t}.b/{lo}-{hi - 1}", [t], 2, lambda xs, t=t: [(BITREQ[t][concrete(xs[0])], xs[1] == 1, t, [("bit", xs[0] // 8, xs[0] % 8, xs[1] == 1)], None)],
             val_pre=lambda xs, lo=lo, hi=hi: lo <= xs[0] < hi and xs[1] in (0, 1), timeout=300,
             desc=f"{t}: prior word symbolic, bit number symbolic {lo}..{hi - 1}, value symbolic; single-request path", cfg={"writes": 1})
 add("bit/D1-three-bits-one-call", ["D1"], 3, lambda xs: [("D1.0", xs[0] == 1, "D1", [("bit", 0, 0, xs[0] == 1)], None), ("D1.9", xs[1] == 1, "D1", [("bit", 1, 1, xs[1] == 1)], None),
@@ -197,7 +198,7 @@ add("bit/mixed-words-and-values", ["D1", "I1", "S1"], 3, lambda xs: [("D1.4", xs
                                                                      ("S1", xs[2], "S1", [("int", 0, 1, True, xs[2])], None)],
     val_pre=lambda xs: xs[0] in (0, 1) and xs[1] in (0, 1) and dom(xs[2], 1), cfg={"writes": 3}, timeout=300)
 add("bit/DA[2].7", ["DA"], 1, lambda xs: [("DA[2].7", xs[0] == 1, "DA", [("bit", 8, 7, xs[0] == 1)], lambda v, xs=xs: v == (xs[0] == 1))], val_pre=lambda xs: xs[0] in (0, 1), cfg={"writes": 1})
-add("bit/U1.a.b", ["U1"], 2, lambda xs: [(BITREQ["U1.a"][xs[0]], xs[1] == 1, "U1", [("bit", xs[0] // 8, xs[0] % 8, xs[1] == 1)], None)],
+add("bit/U1.a.b", ["U1"], 2, lambda xs: [(BITREQ["U1.a"][concrete(xs[0])], xs[1] == 1, "U1", [("bit", xs[0] // 8, xs[0] % 8, xs[1] == 1)], None)],
     val_pre=lambda xs: 0 <= xs[0] < 32 and xs[1] in (0, 1), cfg={"writes": 1}, timeout=300)
 
 
@@ -217,12 +218,12 @@ def _add_boolarray(id, req, off, nbools, nsym, tier="quick"):
 BAREQ = [f"BA[{i}]" for i in range(64)]
 for lo in (0, 16, 32, 48):
     add(f"boolarray/BA[i]-single-element/{lo}-{lo + 15}", ["BA"], 2,
-        lambda xs: [(BAREQ[xs[0]], xs[1] == 1, "BA", [("bit", 4 * (xs[0] // 32) + (xs[0] % 32) // 8, xs[0] % 8, xs[1] == 1)], None)],
+        lambda xs: [(BAREQ[concrete(xs[0])], xs[1] == 1, "BA", [("bit", 4 * (xs[0] // 32) + (xs[0] % 32) // 8, xs[0] % 8, xs[1] == 1)], None)],
         val_pre=lambda xs, lo=lo: lo <= xs[0] < lo + 16 and xs[1] in (0, 1), cfg={"writes": 1}, timeout=300,
         desc=f"one BOOL-array element, index symbolic {lo}..{lo + 15}, value and prior DWORDs symbolic; single-request path")
     add(f"boolarray/BA[i]+D1-multi-path/{lo}-{lo + 15}", ["BA", "D1"], 3,
         lambda xs: [("D1", xs[2], "D1", [("int", 0, 4, True, xs[2])], None),
-                    (BAREQ[xs[0]], xs[1] == 1, "BA", [("bit", 4 * (xs[0] // 32) + (xs[0] % 32) // 8, xs[0] % 8, xs[1] == 1)], None)],
+                    (BAREQ[concrete(xs[0])], xs[1] == 1, "BA", [("bit", 4 * (xs[0] // 32) + (xs[0] % 32) // 8, xs[0] % 8, xs[1] == 1)], None)],
         val_pre=lambda xs, lo=lo: lo <= xs[0] < lo + 16 and xs[1] in (0, 1) and dom(xs[2], 4), cfg={"writes": 2}, timeout=300,
         desc=f"one BOOL-array element (index symbolic {lo}..{lo + 15}) together with a value write: multi-request path")
 add("boolarray/three-elements-one-call", ["BA"], 3,
